@@ -11,6 +11,10 @@ CLAUSE = ("(RF-TAB) the codes search_page_fwd and search_page_rev return are exa
           "all four stop fields; (RF-TERM) the page walk _vbi_cache_foreach_page is entered only with a non-empty *network* (the "
           "counter of the network whose page statistics it walks) and every wrap-around of the walk is preceded by a test that it "
           "has not wrapped before (so it ends even if the callback never stops it); The walk's page reference pairing is decided under C10.")
+CLAUSE = CLAUSE + (" The 'whole page consumed' resume row that highlight() presets satisfies the test with which "
+                   "search_page_fwd skips an already reported page (so a match that ends in the last searched cell does not make "
+                   "the search return the same page forever); in _ure_sym_neq the element count that is compared is the one that "
+                   "scales the memcmp of the ranges (two bracket classes are the same symbol only if all their ranges agree).")
 NOT_DECIDED = ("that exactly the matching pages are found, in order, each once (values); the regex engine's matching semantics; "
                "haystack construction.")
 
@@ -77,6 +81,8 @@ def run(ctx, run):
     _metachars(ctx, run)
     _turn(ctx, run, nxt)
     _walk(ctx, run, walk)
+    _page_done_marker(ctx, run, fwd)
+    _symbol_identity(ctx, run)
 
 
 def _metachars(ctx, run):
@@ -219,3 +225,80 @@ def _is_flag(f, name):
             if nm == name and (rhs is None or ex.const(f, rhs) not in (0, 1)):
                 return False
     return True
+
+
+def _page_done_marker(ctx, run, fwd):
+    P = ctx.prog
+    hl = P.need("highlight", SEARCH)
+    run.touch(hl)
+    # constants stored to s->row[0] in highlight ()
+    presets = []
+    for bid, i in flow.all_events(hl):
+        e = hl.exprs[i]
+        if e["k"] == "asg" and e["op"] == "=":
+            l = hl.exprs[ex.skip(hl, e["c"][0])]
+            if l["k"] == "idx" and ex.const(hl, l["c"][1]) == 0:
+                b = hl.exprs[ex.skip(hl, l["c"][0])]
+                while b["k"] == "cast":
+                    b = hl.exprs[ex.skip(hl, b["c"][0])]
+                if b.get("member") == "row":
+                    c = ex.const(hl, e["c"][1])
+                    if c is not None:
+                        presets.append((i, c))
+    # the skip test of the forward search: `row > C` leading to `return 0`
+    skip = None
+    for bid, b in fwd.blocks.items():
+        t = b.term
+        if not t or "cond" not in t:
+            continue
+        c = fwd.exprs[ex.skip(fwd, t["cond"])]
+        if c["k"] == "bin" and c["op"] in (">", ">="):
+            l = fwd.exprs[ex.skip(fwd, c["c"][0])]
+            while l["k"] == "cast":
+                l = fwd.exprs[ex.skip(fwd, l["c"][0])]
+            k = ex.const(fwd, c["c"][1])
+            if l["k"] == "ref" and l.get("name") == "row" and k is not None:
+                skip = (c["op"], k)
+    if not presets or skip is None:
+        raise AnalysisBroken("search: resume-row preset (%s) or skip test (%s) not found" % (presets, skip))
+    key = "RF-TAB:search:page-done-marker"
+    for i, c in presets:
+        ok = c > skip[1] if skip[0] == ">" else c >= skip[1]
+        if ok:
+            run.holds("RF-TAB", key, "highlight () presets row[0] = %d, which satisfies search_page_fwd's skip test `row %s %d`"
+                      % (c, skip[0], skip[1]), ex.loc(hl, i))
+        else:
+            run.violation("RF-TAB", key, "highlight () presets the resume row to %d for a match that ends in the last searched cell, but "
+                          "search_page_fwd skips a reported page only when `row %s %d`: the page is searched again from the top "
+                          "and returned forever" % (c, skip[0], skip[1]), ex.loc(hl, i), witness={"preset": c, "skip_test": list(skip)})
+
+
+def _symbol_identity(ctx, run):
+    from .. import atoms
+    P = ctx.prog
+    f = P.need("_ure_sym_neq", "src/ure.c")
+    run.touch(f)
+    n = 0
+    for bid, i in flow.all_events(f):
+        e = f.exprs[i]
+        if e["k"] == "call" and e.get("callee") == "memcmp" and len(e["c"]) >= 3:
+            n += 1
+            length_fields = {x.split(".")[-1] for x in atoms.Operand(f, e["c"][2]).fields}
+            cmp_fields = set()
+            for a in atoms.atoms_at(f, i):
+                if a.rel == "==" and a.R is not None and a.L.fields and a.R.fields:
+                    lf = {x.split(".")[-1] for x in a.L.fields}
+                    rf = {x.split(".")[-1] for x in a.R.fields}
+                    if lf == rf:
+                        cmp_fields |= lf
+            key = "RF-DEP:_ure_sym_neq:count-compared-is-count-used"
+            if length_fields and length_fields <= cmp_fields:
+                run.holds("RF-DEP", key, "the memcmp length scales with %s, and equality of exactly that field on both symbols "
+                          "dominates the call" % sorted(length_fields), ex.loc(f, i))
+            else:
+                run.violation("RF-DEP", key, "the ranges are compared over %s elements but the equality test before it is on %s: two "
+                              "classes with a different number of ranges (one a leading sub-list of the other) are taken for the "
+                              "same symbol, so `[0-9a-f][a-f]` compiles as `[0-9a-f][0-9a-f]`"
+                              % (sorted(length_fields), sorted(cmp_fields) or "other fields"), ex.loc(f, i),
+                              witness={"length": sorted(length_fields), "compared": sorted(cmp_fields)})
+    run.floor("memcmp of class ranges in _ure_sym_neq", n, 1)
